@@ -42,11 +42,13 @@ type gTok struct {
 	used     bool
 	issuedAt int64
 	exp      int64 // expiry the introspection reported when the token was minted (0 = unknown)
+	gone     bool  // the last probe reported the token inactive (access / refresh tokens)
 	scopes   []string // requested scopes of the grant
 	aud      []string
 }
 
 type gen struct {
+	pending []HOp // scripted follow-up operations (run before anything else is drawn)
 	r    *RNG
 	p    *Profile
 	h    *HHistory
@@ -177,6 +179,27 @@ func (g *gen) pickTok(kind string, pred func(*gTok) bool) int {
 	if len(c) == 0 {
 		return -1
 	}
+	// most operations aim at a credential the operation can still succeed on: not reported inactive, not yet expired by
+	// the generator's clock, owned by a client that is registered for the grant
+	if g.r.Chance(70) {
+		var live []int
+		for _, i := range c {
+			t := &g.toks[i]
+			if t.gone || t.used {
+				continue
+			}
+			if t.kind == "code" && t.issuedAt+g.h.Cfg.LifeCode < g.now {
+				continue
+			}
+			if t.kind == "refresh" && t.client < len(g.h.Clients) && !hasStr(g.h.Clients[t.client].Grants, "refresh_token") {
+				continue
+			}
+			live = append(live, i)
+		}
+		if len(live) > 0 {
+			c = live
+		}
+	}
 	// prefer recent ones
 	if g.r.Chance(60) {
 		return c[len(c)-1-g.r.Intn(min(3, len(c)))]
@@ -194,8 +217,70 @@ func (g *gen) auth(owner int) int {
 	return g.r.Intn(len(g.h.Clients))
 }
 
+// staleReplay scripts "wait until a rotated-away token of a grant has itself expired while its successors are still
+// valid, then replay the grant's code or that refresh token": the replay must still kill what is alive now.
+func (g *gen) staleReplay() bool {
+	var cand []int
+	for i := range g.toks {
+		t := &g.toks[i]
+		if (t.kind != "access" && t.kind != "refresh") || t.exp <= g.now || !(t.gone || t.used) {
+			continue
+		}
+		for j := range g.toks {
+			u := &g.toks[j]
+			if j != i && u.family == t.family && (u.kind == "access" || u.kind == "refresh") && !u.gone && !u.used && (u.exp == 0 || u.exp > t.exp+700) {
+				cand = append(cand, i)
+				break
+			}
+		}
+	}
+	if len(cand) == 0 {
+		return false
+	}
+	i := Pick(g.r, cand)
+	t := &g.toks[i]
+	adv := HOp{Kind: "advance", Ms: t.exp - g.now + Pick(g.r, []int64{1, 250, 600})}
+	var rep HOp
+	if t.kind == "refresh" && g.r.Bool() {
+		rep = HOp{Kind: "refresh", Tok: HTok{Ref: i}, Auth: t.client}
+	} else if t.family >= 0 && t.family < len(g.toks) && g.toks[t.family].kind == "code" {
+		c := &g.toks[t.family]
+		rep = HOp{Kind: "redeem", Tok: HTok{Ref: t.family}, Auth: c.client, Redirect: c.redirect, Verifier: c.verifier}
+	} else if t.kind == "refresh" {
+		rep = HOp{Kind: "refresh", Tok: HTok{Ref: i}, Auth: t.client}
+	} else {
+		return false
+	}
+	g.pending = append(g.pending, adv, rep)
+	return true
+}
+
+// pausedRefresh scripts "let some time pass, then the owner refreshes a token that is still valid": the new tokens' lifetimes
+// must start at the refresh, not at the original grant
+func (g *gen) pausedRefresh() bool {
+	j := g.pickTok("refresh", func(t *gTok) bool {
+		return !t.used && !t.gone && (t.exp == 0 || t.exp > g.now+2000) && t.client < len(g.h.Clients) && hasStr(g.h.Clients[t.client].Grants, "refresh_token")
+	})
+	if j < 0 || g.toks[j].used || g.toks[j].gone {
+		return false
+	}
+	g.pending = append(g.pending, HOp{Kind: "advance", Ms: 600 + int64(g.r.Intn(8))*200}, HOp{Kind: "refresh", Tok: HTok{Ref: j}, Auth: g.toks[j].client})
+	return true
+}
+
 func (g *gen) next() HOp {
 	p := g.p
+	if len(g.pending) == 0 && g.r.Chance(4) {
+		g.staleReplay()
+	}
+	if len(g.pending) == 0 && g.r.Chance(5) {
+		g.pausedRefresh()
+	}
+	if len(g.pending) > 0 {
+		op := g.pending[0]
+		g.pending = g.pending[1:]
+		return op
+	}
 	total := p.WAuthorize + p.WRedeem + p.WRefresh + p.WRevoke + p.WIntrospect + p.WAdvance + p.WSetClient + p.WPassword + p.WClientCreds + p.WIntrospectEP + p.WPush + p.WAuthorizePAR + p.WDeviceAuth + p.WDecide + p.WDevicePoll
 	x := g.r.Intn(total)
 	pick := func(w int) bool {
@@ -352,6 +437,13 @@ func (g *gen) next() HOp {
 		i := g.pickTok("refresh", func(t *gTok) bool { return !t.used || r.Chance(40) })
 		if i < 0 {
 			i = g.pickTok("refresh", nil)
+		}
+		if i < 0 && !r.Chance(15) {
+			// nothing to refresh yet: move a flow forward instead
+			if j := g.pickTok("code", func(t *gTok) bool { return !t.used }); j >= 0 {
+				t := &g.toks[j]
+				return HOp{Kind: "redeem", Tok: HTok{Ref: j}, Auth: t.client, Redirect: t.redirect, Verifier: t.verifier}
+			}
 		}
 		if i < 0 || r.Chance(p.Bad/4) {
 			i = g.pickTok("access", nil) // an access token presented as a refresh token
@@ -624,7 +716,31 @@ func (g *gen) next() HOp {
 		i := r.Intn(len(g.h.Clients))
 		nc := g.orig[i]
 		cur := g.h.Clients[i]
-		switch r.Intn(7) {
+		which := Pick(r, []int{0, 0, 1, 2, 3, 4, 4, 4, 5, 5, 6, 6, 7, 7, 7, 7})
+		if which == 7 {
+			// take away a scope that a live refresh token's grant carries, from a client that may still refresh
+			j := g.pickTok("refresh", func(t *gTok) bool {
+				return !t.used && !t.gone && len(t.scopes) > 0 && t.client < len(g.h.Clients) && hasStr(g.h.Clients[t.client].Grants, "refresh_token")
+			})
+			if j >= 0 {
+				t := &g.toks[j]
+				i = t.client
+				cur = g.h.Clients[i]
+				nc = cur
+				s := Pick(r, t.scopes)
+				seg := strings.SplitN(s, ".", 2)[0]
+				nc.Scopes = nil
+				for _, e := range cur.Scopes {
+					if e != s && strings.SplitN(e, ".", 2)[0] != seg {
+						nc.Scopes = append(nc.Scopes, e)
+					}
+				}
+				nc.Public = g.orig[i].Public
+				return HOp{Kind: "setclient", Client: i, NewClient: &nc}
+			}
+			which = 0
+		}
+		switch which {
 		case 6: // change the table of lifetime overrides
 			nc = cur
 			if cur.Life != nil && r.Chance(30) {
@@ -761,6 +877,11 @@ func genHistory(t *testing.T, r *RNG, p *Profile) (*HHistory, []HObs) {
 			for j := defer0; j < len(g.toks) && j < len(o.Probes); j++ {
 				if o.Probes[j] != nil && o.Probes[j].Exp != nil {
 					g.toks[j].exp = *o.Probes[j].Exp
+				}
+			}
+			for j := 0; j < len(g.toks) && j < len(o.Probes); j++ {
+				if k := g.toks[j].kind; k == "access" || k == "refresh" {
+					g.toks[j].gone = o.Probes[j] == nil
 				}
 			}
 		}
